@@ -21,6 +21,7 @@ def run(ctx):
     E.r_hb_result(prog, rep)
     E.r_protocol_order(prog, rep)
     E.r_thread_confined(prog, rep)
+    E.r_cancel_delegates(prog, rep)
     E.r_mustfollow(prog, rep)
     E.r_fifo(prog, rep)
     E.r_outstanding_count(prog, rep)
